@@ -70,7 +70,7 @@ def cache_load(url):
             exc.args = (msg,)  # needs to be a tuple
             raise exc
 
-        with open(cache_file, "w") as local_file:
+        with open(cache_file, "w", encoding="utf-8") as local_file:
             local_file.write(str(data))
 
     return cache_file
